@@ -202,14 +202,14 @@ CHECKS = {
         kani=[dict(crate="nexrad-decode", files=["wire_layout.rs", "drd.rs", "c02.rs"], harnesses=
             layout_h(["DrdHeader", "DataBlockId", "VolumeDataBlock", "ElevationDataBlock", "RadialDataBlock", "GenericDataBlockHeader"]) + [
             dict(name="c02_generic_block_new_len", what="GenericDataBlock::new: gate buffer length == gates x (word_size/8) for all u16 x u8"),
-            dict(name="drd_marker_vol", bounded="1 block, one symbolic marker byte", what="VOL block routed to the volume slot only"),
-            dict(name="drd_marker_ref", bounded="1 block, one symbolic marker byte", what="REF routed to the reflectivity slot only, marker in header and gate byte"),
-            dict(name="drd_marker_vel", bounded="1 block, one symbolic marker byte", what="VEL routing"),
-            dict(name="drd_marker_sw", bounded="1 block, one symbolic marker byte", what="SW routing"),
-            dict(name="drd_marker_zdr", bounded="1 block, one symbolic marker byte", what="ZDR routing"),
-            dict(name="drd_marker_phi", bounded="1 block, one symbolic marker byte", what="PHI routing"),
-            dict(name="drd_marker_rho", bounded="1 block, one symbolic marker byte", what="RHO routing"),
-            dict(name="drd_marker_cfp", bounded="1 block, one symbolic marker byte", what="CFP routing"),
+            dict(name="drd_marker_vol", bounded="1 block, one symbolic marker byte", tier="thorough", what="VOL block routed to the volume slot only"),
+            dict(name="drd_marker_ref", bounded="1 block, one symbolic marker byte", tier="thorough", what="REF routed to the reflectivity slot only, marker in header and gate byte"),
+            dict(name="drd_marker_vel", bounded="1 block, one symbolic marker byte", tier="thorough", what="VEL routing"),
+            dict(name="drd_marker_sw", bounded="1 block, one symbolic marker byte", tier="thorough", what="SW routing"),
+            dict(name="drd_marker_zdr", bounded="1 block, one symbolic marker byte", tier="thorough", what="ZDR routing"),
+            dict(name="drd_marker_phi", bounded="1 block, one symbolic marker byte", tier="thorough", what="PHI routing"),
+            dict(name="drd_marker_rho", bounded="1 block, one symbolic marker byte", tier="thorough", what="RHO routing"),
+            dict(name="drd_marker_cfp", bounded="1 block, one symbolic marker byte", tier="thorough", what="CFP routing"),
             dict(name="drd_route_vol", bounded="1 block, selected bytes symbolic", tier="thorough", what="VOL block delivered as volume block, others absent, reader ends after block"),
             dict(name="drd_route_elv", bounded="1 block, selected bytes symbolic", what="ELV routing"),
             dict(name="drd_route_rad", bounded="1 block, selected bytes symbolic", what="RAD routing"),
@@ -251,14 +251,14 @@ CHECKS = {
             prefix_h([n for n in DECODE_STRUCTS if n not in ("RdaStatus", "VolumeDataBlock", "VcpElevation")]) +
             prefix_h(["RdaStatus", "VolumeDataBlock", "VcpElevation"], tier="thorough") + [
             dict(name="c08_get_datetime_total", what="date conversion total on all u16 x u32 / u16 x u16"),
-            dict(name="drd_q_unknown_name_0", bounded="1 block, name byte 0 symbolic", what="unknown block name: value or error, never a panic; radial conversion total"),
-            dict(name="drd_q_unknown_name_1", bounded="1 block, name byte 1 symbolic", what="same, name byte 1"),
-            dict(name="drd_q_unknown_name_2", bounded="1 block, name byte 2 symbolic", what="same, name byte 2"),
-            dict(name="drd_q_pointer_any", bounded="1 block, pointer any u32, 80-byte message", what="backwards / overlapping / out-of-range pointer: value or error"),
+            dict(name="drd_q_unknown_name_0", bounded="1 block, name byte 0 symbolic", tier="thorough", what="unknown block name: value or error, never a panic; radial conversion total"),
+            dict(name="drd_q_unknown_name_1", bounded="1 block, name byte 1 symbolic", tier="thorough", what="same, name byte 1"),
+            dict(name="drd_q_unknown_name_2", bounded="1 block, name byte 2 symbolic", tier="thorough", what="same, name byte 2"),
+            dict(name="drd_q_pointer_any", bounded="1 block, pointer any u32, 80-byte message", tier="thorough", what="backwards / overlapping / out-of-range pointer: value or error"),
             dict(name="drd_q_truncated_a", bounded="cuts at 0, 31, 32 of a 48-byte message", termination="unwind 5; the unchanged decoder needs <= 3 iterations per loop", what="truncated type-31 message is an error and decoding ends"),
             dict(name="drd_q_truncated_b", bounded="cuts at 35, 36, 39", termination="unwind 5", what="same"),
             dict(name="drd_q_truncated_c", bounded="cuts at 40, 47, 1", termination="unwind 5", what="same"),
-            dict(name="drd_q_gates_short", bounded="gates in {5, 1840, 65535} x word 8/16, 4 data bytes present", termination="unwind 5", what="declared gate bytes beyond the input: error, never a hang or a panic"),
+            dict(name="drd_q_gates_short", bounded="gates in {5, 1840, 65535} x word 8/16, 4 data bytes present", tier="thorough", termination="unwind 5", what="declared gate bytes beyond the input: error, never a hang or a panic"),
             dict(name="drd_total_count_extreme", bounded="block count 65535, 40-byte input", what="huge block count with short input is an error"),
             dict(name="drd_total_name_byte0", bounded="<=2 blocks, 80-byte fully symbolic buffer, one symbolic name byte", tier="thorough", what="type-31 decode + radial conversion: value or error"),
             dict(name="drd_total_name_xyz", bounded="<=2 blocks, 80-byte fully symbolic buffer, name XYZ", tier="thorough", what="unknown block name is an error"),
